@@ -5,7 +5,8 @@
 
 package types
 
-// DecryptSymmetricKey (C07 recipient binding, C09 totality, C11 dispatch)
+// DecryptSymmetricKey (C07 recipient binding, C09 totality, C11 dispatch; C19: every method the metadata lists is
+// decryptable -- the success conditions below admit every AES key length and every advertised algorithm)
 //@ pure func DigestAlg(ek *EncryptedKey) int {
 //@   return ek.EncryptionMethod.DigestMethod == nil ? 1
 //@        : (ek.EncryptionMethod.DigestMethod.Algorithm == "" || ek.EncryptionMethod.DigestMethod.Algorithm == MethodSHA1) ? 1
@@ -54,8 +55,8 @@ package types
 //@        pkcs1OK(cert.PrivateKey.(*rsa.PrivateKey), b64dec(ek.CipherValue))
 //@        && aesKeyOf(blk) == pkcs1Of(cert.PrivateKey.(*rsa.PrivateKey), b64dec(ek.CipherValue))
 //@   ensures [C11] transport: err == nil ==> IsOAEP(ek.EncryptionMethod.Algorithm) || ek.EncryptionMethod.Algorithm == MethodRSAv1_5
-//@   ensures [C11] aes: err == nil ==> blockSizeOf(blk) == 16
-//@   ensures [C11] total: err == nil <==> UnwrapOK(ek, cert)
+//@   ensures [C11, C19] aes: err == nil ==> blockSizeOf(blk) == 16
+//@   ensures [C11, C19] total: err == nil <==> UnwrapOK(ek, cert)
 //@   ensures [C11] key: err == nil ==> blk == aesBlock(UnwrappedKey(ek, cert))
 
 //@ func debugKeyFp(keyBytes []byte) (result string)
@@ -96,15 +97,15 @@ package types
 //@   assigns nothing
 //@   ensures [C11] method: err == nil ==> IsGCM(ea.EncryptionMethod.Algorithm) || IsCBC(ea.EncryptionMethod.Algorithm)
 //@   ensures [C11] data: err == nil ==> b64ok(ea.CipherValue)
-//@   ensures [C11, C07] gcm.inline: IsGCM(ea.EncryptionMethod.Algorithm) && ea.EncryptedKey.CipherValue != "" ==>
+//@   ensures [C11, C07, C19] gcm.inline: IsGCM(ea.EncryptionMethod.Algorithm) && ea.EncryptedKey.CipherValue != "" ==>
 //@        (err == nil <==> b64ok(ea.CipherValue) && UnwrapOK(&ea.EncryptedKey, cert) && GCMOK(ea, UnwrappedKey(&ea.EncryptedKey, cert)))
 //@        && (err == nil ==> out == GCMPlain(ea, UnwrappedKey(&ea.EncryptedKey, cert)))
-//@   ensures [C11, C07] gcm.detached: IsGCM(ea.EncryptionMethod.Algorithm) && ea.EncryptedKey.CipherValue == "" ==>
+//@   ensures [C11, C07, C19] gcm.detached: IsGCM(ea.EncryptionMethod.Algorithm) && ea.EncryptedKey.CipherValue == "" ==>
 //@        (err == nil <==> b64ok(ea.CipherValue) && UnwrapOK(&ea.DetEncryptedKey, cert) && GCMOK(ea, UnwrappedKey(&ea.DetEncryptedKey, cert)))
 //@        && (err == nil ==> out == GCMPlain(ea, UnwrappedKey(&ea.DetEncryptedKey, cert)))
-//@   ensures [C11, C07] cbc.inline: IsCBC(ea.EncryptionMethod.Algorithm) && ea.EncryptedKey.CipherValue != "" ==>
+//@   ensures [C11, C07, C19] cbc.inline: IsCBC(ea.EncryptionMethod.Algorithm) && ea.EncryptedKey.CipherValue != "" ==>
 //@        (err == nil <==> b64ok(ea.CipherValue) && UnwrapOK(&ea.EncryptedKey, cert) && CBCOK(ea, UnwrappedKey(&ea.EncryptedKey, cert)))
-//@   ensures [C11, C07] cbc.detached: IsCBC(ea.EncryptionMethod.Algorithm) && ea.EncryptedKey.CipherValue == "" ==>
+//@   ensures [C11, C07, C19] cbc.detached: IsCBC(ea.EncryptionMethod.Algorithm) && ea.EncryptedKey.CipherValue == "" ==>
 //@        (err == nil <==> b64ok(ea.CipherValue) && UnwrapOK(&ea.DetEncryptedKey, cert) && CBCOK(ea, UnwrappedKey(&ea.DetEncryptedKey, cert)))
 //@   ensures [C11] unknown: !IsGCM(ea.EncryptionMethod.Algorithm) && !IsCBC(ea.EncryptionMethod.Algorithm) ==> err != nil
 // CBC unpadding (xmlenc): the last byte is the pad length N, 1 <= N <= block size; exactly N bytes are removed and
